@@ -163,6 +163,9 @@ def jobs(tier):
         if tier == "quick" and tmc and (A_ in ("g1_light", "F3_total") or (A_.startswith("XS") and fns != "ZM-VFNS")):
             continue
         out.append(dict(A=A_, B=B_, Bxs=Bxs, base=dict(process="NC", fns=fns, nfff=nfff, nf=4, pto=1, tmc=tmc, ren_sv=sv, fact_sv=sv, kin_y=False)))
+        # NNLO with both variations: the (2, *, *, 2) sectors are built from the runner-wide cache of convolved splitting functions
+        if sv and (tier == "thorough" or A_ in ("F2_charm", "F3_total")):
+            out.append(dict(A=A_, B=B_, Bxs=Bxs, base=dict(process="NC", fns=fns, nfff=nfff, nf=4, pto=2, tmc=tmc, ren_sv=sv, fact_sv=sv, kin_y=False)))
     return out
 
 
@@ -188,7 +191,7 @@ def run(rep, proj, tier):
     n_ok = 0
     for j in js:
         b = j["base"]
-        label = f"{j['A']} (with {j['B']}, {j['Bxs']})|{b['fns']}|TMC={b['tmc']}|sv={b['ren_sv']}"
+        label = f"{j['A']} (with {j['B']}, {j['Bxs']})|{b['fns']}|TMC={b['tmc']}|sv={b['ren_sv']}|PTO={b['pto']}"
         problems = []
         ref = {}
         nc = 0
